@@ -6,6 +6,7 @@ import (
 	"database/sql"
 	"database/sql/driver"
 	"sync"
+	"time"
 
 	"seata.apache.org/seata-go/pkg/datasource/sql/types"
 	"seata.apache.org/seata-go/pkg/protocol/branch"
@@ -40,3 +41,11 @@ func VerifNewDBResource(resourceID string, db *sql.DB, dbType types.DBType) *DBR
 
 // VerifStopAsyncWorker ends the commit workers of an AsyncWorker built by a check (its run loop has no exit of its own).
 func VerifStopAsyncWorker(aw *AsyncWorker) { aw.commitWorker.Close() }
+
+// VerifSetXABranchTimeout replaces the XA branch execution timeout (normally read from the configuration when the XA
+// resource manager is initialised) and returns the previous value.
+func VerifSetXABranchTimeout(d time.Duration) time.Duration {
+	old := xaConnTimeout
+	xaConnTimeout = d
+	return old
+}
